@@ -7,6 +7,6 @@ git -C /repo worktree add --detach $wt HEAD -q || exit 2
 trap "git -C /repo worktree remove --force $wt" EXIT
 git -C $wt apply $d/patch.diff || { echo "patch does not apply"; exit 2; }
 cd /verif
-VERIF_REPO=$wt VERIF_EVIDENCE_DIR=/tmp/seedrun-ev-$$ ./bin/vcheck run $prop "$@" 2>&1 | grep -E "^(VIOLATION|KNOWN|UNDISCH|INCOMPL|ENGINE|INCONCL|vcheck: C)" | cut -c1-260 | head -12
+VERIF_REPO=$wt VERIF_EVIDENCE_DIR=/tmp/seedrun-ev-$$ ./bin/vcheck run $prop "$@" 2>&1 | grep -E "^(VIOLATION|KNOWN|UNDISCH|INCOMPL|ENGINE|INCONCL|vcheck: C|  obligation)" | cut -c1-260 | head -16
 echo "exit=$?"
 rm -rf /tmp/seedrun-ev-$$
